@@ -362,6 +362,13 @@ static void l_work(void *arg)
 }
 
 static volatile int L_exit_calls;
+static volatile int L_late;
+static void l_late(void *arg)
+{
+    (void)arg;
+    L_late++;
+    sim_progress();
+}
 static volatile int L_release, L_stubborn_done, L_early_join_returned;
 static void l_stubborn(void *arg)
 {
@@ -525,7 +532,18 @@ static void run_c17_life(void)
                 ABT_OK(ABT_thread_free(&ex));
             sim_progress();
         }
+        /* one more unit, unnamed, right before the join: the stream (idle by now, asleep in a
+         * blocking pop if its scheduler waits) is woken by the push and asked to finish at almost
+         * the same moment; the unit is work it has to finish first */
+        int late = plan_bool();
+        L_late = 0;
+        if (late)
+            ABT_OK(ABT_thread_create(pool, l_late, NULL, ABT_THREAD_ATTR_NULL, NULL));
         ABT_OK(ABT_xstream_join(xs));
+        if (late) {
+            SIM_CHECK(L_late == 1, "join:returned-before-units-finished", "ABT_xstream_join returned but the unnamed unit pushed right before it ran %d times", L_late);
+            sim_count("c17.units_pushed_right_before_a_join", 1);
+        }
         ABT_xstream_state st;
         ABT_OK(ABT_xstream_get_state(xs, &st));
         SIM_CHECK(st == ABT_XSTREAM_STATE_TERMINATED, "stream:not-terminated", "state %d after join (cycle %d)", (int)st, c);
@@ -626,3 +644,9 @@ static void run_c03_life(void)
     run_c17_life();
 }
 SIM_WORKLOAD("C03", "exit-of-a-stream", run_c03_life, 1)
+/* C19: the blocking pop of a waiting scheduler does not lose the unit whose push woke it */
+static void run_c19_life(void)
+{
+    run_c17_life();
+}
+SIM_WORKLOAD("C19", "push-then-join", run_c19_life, 2)
